@@ -468,7 +468,7 @@ def run(chk, drv):
         "alt_<kind> counts the alternative encodings that differ from the reference bytes")
     chk.extra["trusted_base"] = ["google.protobuf 7.36.1 (upb) as the reference decoder/encoder (the oracle of the differential part)",
                                  "harness/reencode.py: that its rewrites are legal re-encodings (cross-checked on every case: the reference must read the alternative like the original)"]
-    nb = 170 if quick else 1500
+    nb = 170 if quick else 1300
     nspec = 4000 if quick else 30000
     spec_lines, spec_wants = [], []
     for bi in range(nb):
